@@ -37,6 +37,7 @@ class FakeBIO:
     def __init__(self):
         self.buf = bytearray()
         self.eof_written = False
+        self.written = bytearray()       # every byte that came in through write()
 
     @property
     def pending(self):
@@ -57,6 +58,7 @@ class FakeBIO:
         if self.eof_written:
             raise ssl.SSLError("cannot write() after write_eof()")
         self.buf += data
+        self.written += data
         return len(data)
 
     def write_eof(self):
@@ -97,6 +99,7 @@ class FakeSSL:
         self.bio_in, self.bio_out = bio_in, bio_out
         self.variant = rng_other
         self.calls = []
+        self.emitted = bytearray()
 
     def _next(self, name, arg=None):
         if not self.script:
@@ -106,6 +109,7 @@ class FakeSSL:
         if cons > 0:
             self.bio_in.read(cons)
         self.bio_out.buf += bytes(emit)      # OpenSSL writes to the BIO regardless of MemoryBIO.write_eof()
+        self.emitted += bytes(emit)
         if kind == 0:
             return bytes(val)
         if kind == 1:
@@ -150,6 +154,9 @@ class FakeTransport:
         self.bio_out = bio_out
         self.calls: list[list[int]] = []
         self.extra_attributes = {}
+        self.sent_ok = bytearray()
+        self.send_failed = False
+        self.delivered = bytearray()
 
     def _raise(self, kind, table):
         import anyio
@@ -171,6 +178,7 @@ class FakeTransport:
             raise Stuck
         self.calls.append([1, self.bio_out.pending, kind])
         if kind == 0:
+            self.delivered += bytes(data)
             return bytes(data)
         self._raise(kind, "rx")
 
@@ -178,7 +186,9 @@ class FakeTransport:
         kind = self.tx.pop(0) if self.tx else 0
         self.calls.append([0, kind, len(item), *item])
         if kind:
+            self.send_failed = True
             self._raise(kind, "tx")
+        self.sent_ok += bytes(item)
 
     async def aclose(self):
         import anyio
@@ -292,6 +302,15 @@ class PumpCase:
             outs += [1 if bin_.eof_written else 0, 1 if bout.eof_written else 0, bin_.pending, bout.pending]
             self._monitor(op, code, val, calls, fssl.calls[nssl:], bin_, bout)
         self.outs = outs
+        # ciphertext conservation (model-independent)
+        if not ft.send_failed:
+            if bytes(fssl.emitted) != bytes(ft.sent_ok) + bytes(bout.buf):
+                self.mon.append("outgoing ciphertext not conserved: bytes produced by the SSL object != bytes sent ++ bytes pending")
+        late = any(c[0] == 1 and c[2] == 0 for c in ft.calls) and bytes(bin_.written) != bytes(ft.delivered) and bin_.eof_written
+        if bytes(bin_.written) != bytes(ft.delivered) and not late:
+            self.mon.append("incoming ciphertext not conserved: bytes delivered by the transport != bytes written to the incoming BIO")
+        if ft.send_failed:
+            self.flags.add("send_failed")
         return self
 
     # -- model-independent monitors on the observable history of the real method --
@@ -408,3 +427,392 @@ def small_scope_cases() -> list[PumpCase]:
 async def run_pump_cases(cases: list[PumpCase]):
     for c in cases:
         await c.run()
+
+
+def shrink_pump(case: PumpCase, still_bad) -> PumpCase:
+    """Cheap shrinking: fewer ops, fewer scripted events, shorter byte strings - while `still_bad(case)` holds."""
+    def variants(c: PumpCase):
+        for i in range(len(c.ops)):
+            yield PumpCase(c.std, c.tail, c.script, c.rx, c.tx, c.ops[:i] + c.ops[i + 1:])
+        for i in range(len(c.script)):
+            yield PumpCase(c.std, c.tail, c.script[:i] + c.script[i + 1:], c.rx, c.tx, c.ops)
+        for i in range(len(c.rx)):
+            yield PumpCase(c.std, c.tail, c.script, c.rx[:i] + c.rx[i + 1:], c.tx, c.ops)
+        for i in range(len(c.tx)):
+            yield PumpCase(c.std, c.tail, c.script, c.rx, c.tx[:i] + c.tx[i + 1:], c.ops)
+        for i, (k, cons, val, emit) in enumerate(c.script):
+            if cons:
+                yield PumpCase(c.std, c.tail, c.script[:i] + [(k, 0, val, emit)] + c.script[i + 1:], c.rx, c.tx, c.ops)
+            if len(emit) > 1:
+                yield PumpCase(c.std, c.tail, c.script[:i] + [(k, cons, val, emit[:1])] + c.script[i + 1:], c.rx, c.tx, c.ops)
+            if len(val) > 1:
+                yield PumpCase(c.std, c.tail, c.script[:i] + [(k, cons, val[:1], emit)] + c.script[i + 1:], c.rx, c.tx, c.ops)
+        for i, (k, d) in enumerate(c.rx):
+            if len(d) > 1:
+                yield PumpCase(c.std, c.tail, c.script, c.rx[:i] + [(k, d[:1])] + c.rx[i + 1:], c.tx, c.ops)
+
+    cur = case
+    for _ in range(60):
+        for v in variants(cur):
+            if not v.ops:
+                continue
+            try:
+                if still_bad(v):
+                    cur = v
+                    break
+            except Exception:  # noqa: BLE001
+                continue
+        else:
+            break
+    return cur
+
+
+# ------------------------------------------------------------------------------------------------
+# part (b): scenario generation for the real ssl module
+# ------------------------------------------------------------------------------------------------
+
+def gen_scenarios(rng: random.Random, tier: str, struct):
+    """struct(version, std, payload_c, payload_s) -> (#records c2s, #records s2c) of an uncut run."""
+    from c17_tls_e2e import CHUNKINGS, Scenario
+
+    quick = tier == "quick"
+    out: list = []
+    sid = [0]
+
+    def mk(**kw):
+        sid[0] += 1
+        return Scenario(seed=core.seed() * 1000 + sid[0], **kw)
+
+    small_payloads = [[], [0], [1], [0, 5, 0], [3, 0, 100], [1000, 1, 1]]
+    big_payloads = [[16384], [16385, 1], [20000], [0, 40000, 7]] if quick else \
+                   [[16383], [16384], [16385, 1], [20000], [0, 40000, 7], [70000, 0, 3], [16384, 16384, 16384, 5]]
+    recv_sizes = [[1], [7], [100], [65536], [1, 16384, 3], [16383], [20000]]
+    # 1. no cut: every chunking in both directions, both versions, both flags, both initiators
+    for version in ("1.2", "1.3"):
+        for std in (True, False):
+            for ch in CHUNKINGS:
+                other = rng.choice(CHUNKINGS)
+                pc = rng.choice(small_payloads + big_payloads[:2])
+                ps = rng.choice(small_payloads)
+                if ch in ("one", "seven") and sum(pc) > 20000:
+                    pc = [5000]
+                out.append(mk(version=version, std_c=std, std_s=std, chunk_cs=ch, chunk_sc=other, payload_c=pc, payload_s=ps,
+                              recv_c=rng.choice(recv_sizes), recv_s=rng.choice(recv_sizes if sum(pc) <= 5000 else recv_sizes[2:]),
+                              initiator=rng.choice(["client", "server"])))
+                out.append(mk(version=version, std_c=std, std_s=std, chunk_cs=other, chunk_sc=ch, payload_c=rng.choice(small_payloads),
+                              payload_s=rng.choice(small_payloads + [[3000]]), recv_c=rng.choice(recv_sizes), recv_s=rng.choice(recv_sizes),
+                              initiator=rng.choice(["client", "server"])))
+    # 2. several records, both directions at once
+    for version in ("1.2", "1.3"):
+        for pc in big_payloads:
+            ch = rng.choice(["record", "coalesce", "random", "seven"] if sum(pc) <= 20000 else ["record", "coalesce", "random"])
+            out.append(mk(version=version, std_c=True, std_s=True, chunk_cs=ch, chunk_sc=rng.choice(["record", "coalesce", "random"]),
+                          payload_c=pc, payload_s=rng.choice(big_payloads), recv_c=rng.choice(recv_sizes[2:]),
+                          recv_s=rng.choice(recv_sizes[2:]), initiator=rng.choice(["client", "server"])))
+    out.append(mk(version="1.3", std_c=True, std_s=True, chunk_cs="one", chunk_sc="one", payload_c=[17000], payload_s=[5],
+                  recv_c=[65536], recv_s=[65536], initiator="client"))
+    out.append(mk(version="1.2", std_c=True, std_s=True, chunk_cs="seven", chunk_sc="one", payload_c=[3], payload_s=[16390],
+                  recv_c=[1, 5000], recv_s=[1], initiator="server"))
+    # 3. mixed flags: one side closes without the closing handshake
+    for version in ("1.2", "1.3"):
+        for (a, b) in ((True, False), (False, True)):
+            for ini in ("client", "server"):
+                out.append(mk(version=version, std_c=a, std_s=b, chunk_cs=rng.choice(CHUNKINGS), chunk_sc=rng.choice(CHUNKINGS),
+                              payload_c=[10, 300], payload_s=[7], recv_c=[100], recv_s=[100], initiator=ini))
+    # 4. cuts at every record of a reference conversation, at every interesting offset inside the record
+    modes = ["start", "hdr", "body0", "mid", "last"]
+    cut_chunkings = ["record", "coalesce", "random", "record", "coalesce", "random", "seven"] if quick else list(CHUNKINGS[1:])
+    for version in ("1.2", "1.3"):
+        for std in (True, False):
+            pc, ps = [100, 17000], [50]
+            n_cs, n_sc = struct(version, std, pc, ps)
+            for (d, n) in (("c2s", n_cs), ("s2c", n_sc)):
+                for k in range(n):
+                    ms = modes if not quick else rng.sample(modes, 2 if std else 1)
+                    for m in ms:
+                        out.append(mk(version=version, std_c=std, std_s=std, chunk_cs=rng.choice(cut_chunkings),
+                                      chunk_sc=rng.choice(cut_chunkings), payload_c=pc, payload_s=ps, recv_c=[65536],
+                                      recv_s=rng.choice([[65536], [100], [16384]]), cut=(d, ("rec", k, m)),
+                                      initiator=rng.choice(["client", "server"])))
+            # absolute offsets (handshake bytes)
+            offs = [0, 1, 4, 5, 6, 50] + [rng.randrange(0, 2500) for _ in range(6 if quick else 60)]
+            for off in offs:
+                out.append(mk(version=version, std_c=std, std_s=std, chunk_cs=rng.choice(CHUNKINGS), chunk_sc=rng.choice(CHUNKINGS),
+                              payload_c=[20], payload_s=[30, 1], recv_c=[7], recv_s=[65536],
+                              cut=(rng.choice(["c2s", "s2c"]), ("abs", off)), initiator=rng.choice(["client", "server"])))
+    # 5. random scenarios
+    for _ in range(20 if quick else 600):
+        pc = rng.choice(small_payloads + big_payloads)
+        ps = rng.choice(small_payloads + big_payloads[:3])
+        chs = [c for c in CHUNKINGS if c not in ("one", "seven")] if sum(pc) + sum(ps) > 6000 else list(CHUNKINGS)
+        cut = None
+        if rng.random() < 0.5:
+            cut = (rng.choice(["c2s", "s2c"]), ("rec", rng.randrange(0, 14), rng.choice(modes)))
+        std = rng.random() < 0.6
+        out.append(mk(version=rng.choice(["1.2", "1.3"]), std_c=std, std_s=std if rng.random() < 0.8 else not std,
+                      chunk_cs=rng.choice(chs), chunk_sc=rng.choice(chs), payload_c=pc, payload_s=ps,
+                      recv_c=rng.choice(recv_sizes if sum(ps) <= 5000 else recv_sizes[2:]),
+                      recv_s=rng.choice(recv_sizes if sum(pc) <= 5000 else recv_sizes[2:]), cut=cut,
+                      initiator=rng.choice(["client", "server"])))
+    return out
+
+
+def run_e2e(tier: str, rng: random.Random, corpus: list):
+    import anyio
+    import c17_tls_e2e as E
+
+    certs = E.Certs()
+    results = []          # (scenario, violations, flags, summary)
+    hssl_bad: list[str] = []
+    for version in ("1.2", "1.3"):
+        for cut in (False, True):
+            for n in ([0, 1, 20000] if tier == "quick" else [0, 1, 100, 16384, 16385, 50000, 70000]):
+                hssl_bad += E.hssl_direct(certs, version, rng, n, cut)
+
+    async def main():
+        cache = {}
+
+        async def one(sc):
+            out = await E.run_scenario(sc, certs)
+            v, fl = E.monitors(sc, *out)
+            rc, rs, conn, eps, dl = out
+            summ = {"client": [E.exc_name(rc.hs_exc), len(rc.got), E.exc_name(rc.recv_exc), E.exc_name(rc.final_exc), E.exc_name(rc.close_exc)],
+                    "server": [E.exc_name(rs.hs_exc), len(rs.got), E.exc_name(rs.recv_exc), E.exc_name(rs.final_exc), E.exc_name(rs.close_exc)],
+                    "records": [len(conn.cs.rec_bounds), len(conn.sc.rec_bounds)], "wire": [len(conn.cs.wire), len(conn.sc.wire)],
+                    "cut_at": [conn.cs.cut_at, conn.sc.cut_at], "cut_triggered": conn.killed,
+                    "transport_calls": [eps[0].n_send, eps[0].n_receive, eps[1].n_send, eps[1].n_receive]}
+            if conn.killed:
+                fl.add("cut_triggered")
+                d = conn.cs if conn.cs.cut_triggered else conn.sc
+                if d.cut_at is not None:
+                    inside = [(s, t, n) for (s, t, n) in d.rec_bounds if s < d.cut_at < s + n]
+                    fl.add("cut_mid_record" if inside else "cut_between_records")
+                hs_failed = rc.hs_exc is not None or rs.hs_exc is not None
+                fl.add("cut_during_handshake" if hs_failed else "cut_after_handshake")
+            if sum(sc.payload_c) > 16384 or sum(sc.payload_s) > 16384:
+                fl.add("multi_record_payload")
+            if 0 in sc.payload_c or 0 in sc.payload_s:
+                fl.add("zero_length_item")
+            if sc.payload_c and sc.payload_s:
+                fl.add("full_duplex")
+            return v, fl, summ
+
+        async def struct(version, std, pc, ps):
+            key = (version, std, tuple(pc), tuple(ps))
+            if key not in cache:
+                sc = E.Scenario(version, std, std, "record", "record", pc, ps, [65536], [65536], None, "client", 7)
+                _v, _f, summ = await one(sc)
+                cache[key] = tuple(summ["records"])
+            return cache[key]
+
+        # the generator needs the record structure of the reference conversations: compute it first
+        refs = {}
+        for version in ("1.2", "1.3"):
+            for std in (True, False):
+                refs[(version, std)] = await struct(version, std, [100, 17000], [50])
+        scs = list(corpus) + gen_scenarios(rng, tier, lambda v, s, pc, ps: refs[(v, s)])
+        nviol = 0
+        for sc in scs:
+            v, fl, summ = await one(sc)
+            results.append((sc, v, fl, summ))
+            if v:
+                nviol += 1
+                if nviol >= 6:
+                    break
+        # cheap shrinking of the first failing scenarios
+        shrunk = []
+        for sc, v, fl, summ in [r for r in results if r[1]][:3]:
+            best = sc
+            for cand in _shrink_candidates(E, sc):
+                try:
+                    v2, _f2, _s2 = await one(cand)
+                except Exception:  # noqa: BLE001
+                    continue
+                if v2:
+                    best = cand
+                    v = v2
+            shrunk.append((best, v))
+        return shrunk
+
+    shrunk = anyio.run(main)
+    return results, hssl_bad, shrunk
+
+
+def _shrink_candidates(E, sc):
+    import dataclasses
+
+    yield dataclasses.replace(sc, payload_c=[1] if sc.payload_c else [], payload_s=[1] if sc.payload_s else [])
+    yield dataclasses.replace(sc, payload_c=[1], payload_s=[], recv_c=[65536], recv_s=[65536])
+    yield dataclasses.replace(sc, chunk_cs="coalesce", chunk_sc="coalesce")
+
+
+# ------------------------------------------------------------------------------------------------
+
+NOT_EXHIBITED = [
+    "OpenSSL / ssl.SSLObject / ssl.MemoryBIO are NOT modelled: in the proofs the SSL object is an arbitrary oracle (theorems 1-6) or the toy record layer toy_call (theorems 7-12: successor 'encryption', type/length framed records, hello / data / close_notify); the contract H_ssl the toy layer satisfies (in-order decryption of completely delivered ciphertext, read(n) <= n, unexpected-EOF error for a cut before close_notify, empty read after close_notify) is only OBSERVED on the real ssl module by part (b) of the harness, for TLS 1.2 and 1.3 of the installed OpenSSL",
+    "cryptographic properties (confidentiality, integrity, authentication), certificate validation, renegotiation, key update, session tickets, ALPN: not modelled; the harness runs real handshakes with trustme certificates",
+    "concurrent use of one TLSStream by a sending and a receiving task (two pump loops interleaving at their await points) is exercised by part (b) but the model/proofs are about one call at a time; TLSStream has no resource guard of its own",
+    "cancellation of a pump loop in the middle of a transport call is not modelled",
+    "the transport is an in-memory pair written for this harness (re-chunking, coalescing, truncation); real sockets are covered by C18",
+    "unwrap()/aclose() are in the model and in the correspondence of part (a) and in pump theorems 1-4; the end-to-end toy theorems cover handshake + send/receive sequences, with the peer's close_notify as part of the received wire",
+    "transport.receive() returning b'' (forbidden by the ByteReceiveStream contract) and max_bytes of transport.receive are not distinguished by the model",
+]
+
+
+def check(tier: str) -> int:
+    rep = core.Report("C17", tier)
+    rep.assumptions = core.TRUSTED_BASE_COMMON + [
+        "model boundary/TlsPump.v hand-written from src/anyio/streams/tls.py:179-261 (pump loop, unwrap, aclose, receive, send); SSL object = oracle, transport = script",
+        "level: proof, PARTIAL - see 'not exhibited by the model'",
+    ] + ["not exhibited by the model: " + x for x in NOT_EXHIBITED]
+    proofs_ok = core.proof_stage(rep, "props/C17.v")
+    exe = core.build_driver("tlspump", "TlsPump")
+    rng = random.Random(core.seed())
+
+    # ---------------- part (a): pump correspondence ----------------
+    corpus_dir = core.VERIF / "corpus" / "C17"
+    corpus_a, corpus_b = [], []
+    for f in sorted(corpus_dir.glob("*.json")):
+        j = json.loads(f.read_text())
+        if j.get("kind") == "pump":
+            corpus_a.append(PumpCase.from_json(j["case"]))
+        elif j.get("kind") == "e2e":
+            import c17_tls_e2e as E
+
+            corpus_b.append(E.Scenario.from_json(j["scenario"]))
+    bio_bad = bio_selfcheck(rng, 200 if tier == "quick" else 3000)
+    cases = list(corpus_a) + small_scope_cases()
+    n_small = len(cases) - len(corpus_a)
+    n_random = 4000 if tier == "quick" else 60000
+    cases += [gen_pump_case(rng) for _ in range(n_random)]
+    asyncio.run(run_pump_cases(cases))
+    flats = [c.flat() for c in cases]
+    model_outs = core.run_driver(exe, flats)
+    disagreements = [(c, m) for c, m in zip(cases, model_outs) if c.outs != m]
+    stuck = sum(1 for m in model_outs if 9 in m[:1])
+    pump_hits = [(c, msg) for c in cases for msg in c.mon]
+
+    sample_n = 60 if tier == "quick" else 400
+    idx = list(range(len(cases)))
+    rng.shuffle(idx)
+    idx = idx[:sample_n]
+    vm_ok, vm_log = core.coq_eval_cases("c17", "TlsPump", [flats[i] for i in idx], [cases[i].outs for i in idx])
+
+    # ---------------- part (b): the real ssl module ----------------
+    e2e_results, hssl_bad, shrunk = run_e2e(tier, rng, corpus_b)
+    e2e_hits = [(sc, v) for sc, v, _fl, _s in e2e_results if v]
+
+    # ---------------- decide ----------------
+    def rerun_bad(pred):
+        def f(c: PumpCase):
+            c2 = PumpCase(c.std, c.tail, c.script, c.rx, c.tx, c.ops)
+            asyncio.run(c2.run())
+            return pred(c2)
+        return f
+
+    seen = set()
+    for c, msg in pump_hits[:40]:
+        key = msg.split(" (op")[0][:60]
+        if key in seen:
+            continue
+        seen.add(key)
+        small = shrink_pump(c, rerun_bad(lambda c2, key=key: any(m.startswith(key) for m in c2.mon)))
+        asyncio.run(small.run())
+        rep.violation(msg, {"kind": "pump-monitor", "component": "part (a): real TLSStream methods over scripted fake SSL object and transport",
+                            "case": small.to_json(), "impl_observations": small.outs,
+                            "model_observations": core.run_driver(exe, [small.flat()])[0]})
+        if len(seen) >= 4:
+            break
+    for (sc, v), (ssc, sv) in zip(e2e_hits[:3], shrunk + [(None, None)] * 3):
+        use = ssc if ssc is not None else sc
+        rep.violation((sv or v)[0], {"kind": "e2e-monitor", "component": "part (b): real ssl, real TLSStream pair over the re-chunking/truncating transport",
+                                     "scenario": use.to_json(), "all_messages": (sv or v)[:6]})
+    for msg in hssl_bad[:3]:
+        rep.violation(msg, {"kind": "contract", "component": "H_ssl observed directly on a pair of ssl.SSLObject", "message": msg})
+    for msg in bio_bad[:1]:
+        rep.violation(msg, {"kind": "harness-selfcheck", "component": "FakeBIO vs ssl.MemoryBIO", "message": msg}, no_input=True)
+
+    tie_broken = []
+    if not proofs_ok:
+        tie_broken.append("proof obligation: " + str(rep.coverage.get("proof_failure", {}).get("where")))
+    if disagreements:
+        tie_broken.append("correspondence TlsPump.run_case vs anyio.streams.tls.TLSStream (pump loop)")
+    if not vm_ok and not disagreements:
+        tie_broken.append("vm_compute sample disagrees with extracted model")
+    if tie_broken and not (pump_hits or e2e_hits):
+        d = None
+        if disagreements:
+            c, m = min(disagreements, key=lambda cm: len(cm[0].flat()))
+            small = shrink_pump(c, lambda c2: (asyncio.run(c2.run()), c2.outs != core.run_driver(exe, [c2.flat()])[0])[1])
+            asyncio.run(small.run())
+            d = {"case": small.to_json(), "impl": small.outs, "model": core.run_driver(exe, [small.flat()])[0]}
+        rep.violation("; ".join(tie_broken), {"kind": "tie", "broken": tie_broken, "case": d}, no_input=True)
+    elif disagreements and (pump_hits or e2e_hits):
+        rep.notes.append(f"correspondence also broken on {len(disagreements)} cases")
+
+    # ---------------- evidence ----------------
+    flags_a: dict = {}
+    for c in cases:
+        for f in c.flags:
+            flags_a[f] = flags_a.get(f, 0) + 1
+    flags_b: dict = {}
+    for _sc, _v, fl, _s in e2e_results:
+        for f in fl:
+            flags_b[f] = flags_b.get(f, 0) + 1
+    opcount: dict = {}
+    kindcount: dict = {}
+    for c in cases:
+        for o in c.ops:
+            opcount[OPN[o[0]]] = opcount.get(OPN[o[0]], 0) + 1
+        for ev in c.script:
+            kindcount[KINDS[ev[0]]] = kindcount.get(KINDS[ev[0]], 0) + 1
+    rescount: dict = {}
+    for m in model_outs:
+        if m:
+            rescount[RES.get(m[0], str(m[0]))] = rescount.get(RES.get(m[0], str(m[0])), 0) + 1
+    interesting_a = {"want_read", "want_write", "transport_eof", "ssl_eof_std", "ssl_eof_nonstd", "clean_eos", "send_failed"}
+    distinct = len({tuple(f) for f, c in zip(flats, cases) if c.flags & interesting_a})
+    e2e_dist: dict = {}
+    for sc, _v, _fl, _s in e2e_results:
+        for k in (f"tls{sc.version}", f"chunk:{sc.chunk_cs}", f"chunk:{sc.chunk_sc}", "cut" if sc.cut else "nocut",
+                  f"std:{int(sc.std_c)}{int(sc.std_s)}"):
+            e2e_dist[k] = e2e_dist.get(k, 0) + 1
+    rep.coverage.update({
+        "trusted_base": rep.assumptions,
+        "evaluations": len(cases) + len(e2e_results),
+        "programs": len(cases) + len(e2e_results),
+        "traces_validated_against_impl": len(cases) - len(disagreements),
+        "disagreements_checked": len(disagreements),
+        "distinct_nontrivial": distinct + len({json.dumps(sc.to_json(), sort_keys=True) for sc, _v, fl, _s in e2e_results if fl}),
+        "rule": "(a) scripted SSL-object answers (8 outcome kinds, arbitrary consume/emit) x scripted transport (any chunk sizes, EndOfStream, OSError, Broken/ClosedResourceError on receive and send) x op sequences (handshake/receive/send/unwrap/aclose): exhaustive small scope + random, run through the REAL TLSStream methods with fake BIOs and compared observation by observation with the extracted model; (b) real TLS 1.2/1.3 connections between two real TLSStreams over an in-memory transport with 1-byte / 7-byte / per-record / coalesced / random chunking, payload sequences 0 B .. 70 kB, receive sizes 1 .. 65536, both directions concurrently, clean close by either side, mixed standard_compatible, and a cut at every record of a reference conversation x {record start, inside header, after header, mid body, last byte} plus absolute offsets in the handshake; non-trivial = reaches want-read/want-write/EOF/error mapping (a) or any monitor-relevant predicate (b)",
+        "exhaustive_small_scope_cases": n_small,
+        "corpus_cases": len(corpus_a) + len(corpus_b),
+        "pump_cases": len(cases),
+        "e2e_scenarios": len(e2e_results),
+        "reached_pump": flags_a,
+        "reached_e2e": flags_b,
+        "op_distribution": opcount,
+        "ssl_outcome_distribution": kindcount,
+        "first_result_distribution": rescount,
+        "e2e_distribution": e2e_dist,
+        "vm_compute_sample": len(idx),
+        "vm_compute_ok": vm_ok,
+        "model_stuck_first_op": stuck,
+        "monitor_hits": len(pump_hits) + len(e2e_hits) + len(hssl_bad),
+        "hssl_direct_checks_failed": len(hssl_bad),
+        "not_exhibited_by_model": NOT_EXHIBITED,
+        "samples": [cases[i].to_json()["readable"] | {"outs": cases[i].outs[:60]} for i in idx[:2]] +
+                   [{"scenario": sc.to_json(), "summary": s} for sc, _v, _fl, s in e2e_results[:1] + e2e_results[-1:]],
+    })
+    need_a = ("want_read", "want_write", "transport_eof", "ssl_eof_std", "ssl_eof_nonstd", "clean_eos", "flushed", "fed")
+    need_b = ("cut_during_handshake", "cut_mid_record", "cut_between_records", "cut_after_handshake", "truncated_std",
+              "truncated_nonstd", "clean_eos_std", "multi_record_payload", "zero_length_item", "full_duplex",
+              "hssl_unexpected_eof_on_cut", "hssl_empty_read_after_close_notify")
+    for need in need_a:
+        if not flags_a.get(need):
+            rep.notes.append(f"generator self-check: pump predicate {need} never reached")
+    if not e2e_hits:
+        for need in need_b:
+            if not flags_b.get(need):
+                rep.notes.append(f"generator self-check: e2e predicate {need} never reached")
+    return rep.finish()
